@@ -26,8 +26,10 @@ IdLess(x, y) == IdRank(x) < IdRank(y)
 
 Traces == JsonDeserialize(IOEnv.TRACE_FILE)
 
-VARIABLES tid, l, st, ok
-vars == <<tid, l, st, ok>>
+VARIABLES tid, l, st, ok,
+          der      \* the derived list (see DictList.tla) as the specification expects it
+vars == <<tid, l, st, ok, der>>
+NoDer == [present |-> FALSE, items |-> <<>>, idx |-> AllMissing]
 
 \* ---- the implementation state, as observed through the public surface
 ObsIdx(p) == [x \in Ids |-> p.lk[x].pos]
@@ -43,6 +45,23 @@ ObsCoherent(p) ==
        /\ p.lk[x].pos = pos
        /\ p.lk[x].get = (IF pos = Missing THEN Missing ELSE p.items[pos + 1].v)
 
+SwapDiffers(ev, pre, d) ==
+  IF ~d.present THEN (IF ev.raises = "skip" THEN {} ELSE {"raises"})
+  ELSE (IF ev.raises # "none" THEN {"raises"} ELSE {})
+       \cup (IF ev.post.items # d.items THEN {"items"} ELSE {})
+       \cup (IF ObsIdx(ev.post) # d.idx THEN {"index"} ELSE {})
+\* the derived list after this event, as expected from the pre-state
+NextDer(ev, pre, d) ==
+  LET r == Apply(ev.op, pre, IdLess) IN
+  IF ev.op.op = "swap" THEN (IF d.present THEN [present |-> TRUE, items |-> pre.items, idx |-> pre.idx] ELSE d)
+  ELSE IF ev.op.op = "rename" /\ r.raises = "none" THEN NoDer
+  ELSE IF ReturnsList(ev.op) /\ r.raises = "none" THEN [present |-> TRUE, items |-> r.ret.items, idx |-> r.ret.idx]
+  ELSE d
+\* no operation on one list changes what the other one answers
+DerFails(ev, e) ==
+  IF ~e.present THEN {}
+  ELSE (IF ~ev.der.present \/ ev.der.items # e.items \/ ObsIdx(ev.der) # e.idx THEN {"DerivedUnchanged"} ELSE {})
+       \cup (IF ev.der.present /\ ~ObsCoherent(ev.der) THEN {"DerivedCoherent"} ELSE {})
 Differs(ev, pre) ==
   LET exp == Apply(ev.op, pre, IdLess)
       alt == IF ev.op.op = "setslice" THEN SetSliceAlt(pre, ev.op.a, ev.op.b, ev.op.xs) ELSE exp
@@ -69,20 +88,28 @@ Init ==
   /\ l = 0
   /\ ok = TRUE
   /\ st = [items |-> Traces[tid].start, idx |-> IndexOf(Traces[tid].start)]
+  /\ der = IF Traces[tid].der0 = "none" THEN NoDer
+           ELSE [present |-> TRUE, items |-> Traces[tid].start, idx |-> IndexOf(Traces[tid].start)]
 
 Next ==
   /\ ok
   /\ l < Len(Traces[tid].events)
   /\ LET ev == Traces[tid].events[l + 1]
-         d == Differs(ev, st)
-         iv == InvFails(ev, st) IN
+         d == IF ev.op.op = "swap" THEN SwapDiffers(ev, st, der) ELSE Differs(ev, st)
+         nd == NextDer(ev, st, der)
+         iv == (IF ev.op.op = "swap" THEN (IF ~ObsCoherent(ev.post) THEN {"Coherent"} ELSE {}) ELSE InvFails(ev, st))
+               \cup DerFails(ev, nd) IN
      /\ (d \cup iv # {}) =>
            PrintT(ToJson([verdict |-> "MISMATCH", tid |-> Traces[tid].tid, l |-> l + 1, op |-> ev.op,
                           fields |-> d, invs |-> iv, tags |-> Tags(ev.op, st),
-                          expraises |-> Apply(ev.op, st, IdLess).raises, obsraises |-> ev.raises]))
+                          expraises |-> (IF ev.op.op = "swap" THEN "none" ELSE Apply(ev.op, st, IdLess).raises),
+                          obsraises |-> ev.raises]))
      \* continue from the logged state as long as it is one the specification can talk about
      /\ ok' = ObsCoherent(ev.post)
      /\ st' = ObsState(ev.post)
+     \* continue from the derived list the implementation really has (if it is one the specification can talk about)
+     /\ der' = IF nd.present /\ ev.der.present /\ ObsCoherent(ev.der)
+               THEN [present |-> TRUE, items |-> ev.der.items, idx |-> ObsIdx(ev.der)] ELSE NoDer
   /\ l' = l + 1
   /\ tid' = tid
 =============================================================================
